@@ -15,6 +15,7 @@ mod prng;
 mod props;
 mod recorder;
 mod report;
+mod s2;
 mod selfcheck;
 mod simio;
 mod spec;
